@@ -180,7 +180,7 @@ func strFormat(L *LState) int {
 func strGsub(L *LState) int {
 	str := L.CheckString(1)
 	pat := L.CheckString(2)
-	L.CheckTypes(3, LTString, LTTable, LTFunction)
+	L.CheckTypes(3, LTString, LTNumber, LTTable, LTFunction)
 	repl := L.CheckAny(3)
 	limit := L.OptInt(4, -1)
 	if L.Get(4) != LNil && limit <= 0 {
@@ -202,6 +202,8 @@ func strGsub(L *LState) int {
 	switch lv := repl.(type) {
 	case LString:
 		L.Push(LString(strGsubStr(L, str, string(lv), mds)))
+	case LNumber:
+		L.Push(LString(strGsubStr(L, str, lv.String(), mds)))
 	case *LTable:
 		L.Push(LString(strGsubTable(L, str, lv, mds)))
 	case *LFunction:
